@@ -316,7 +316,7 @@ def _single_event(draw, w, kinds):
 
 VARIANTS = ["add_event:event", "add_event:trans", "add_event:event_eq", "add_transition", "add_birth_death:B", "add_birth_death:D",
             "add_ode:add_ode", "add_ode:ode_list", "add_ode:ode_list_single", "add_param:concat", "add_param:list",
-            "add_param:string", "add_derived", "redefine_derived"]
+            "add_param:string", "add_derived", "redefine_derived", "shadow_param"]
 
 
 def _redefinable(m):
@@ -328,6 +328,24 @@ def _redefinable(m):
     return [d["name"] for d in m["derived"] if d["name"] not in used]
 
 
+def _shadowable(m):
+    """Parameters that a rate / magnitude / ODE term mentions, that no derived parameter mentions and that are not shadowed yet."""
+    used = set()
+    for ev in m["events"]:
+        used |= ir.atoms(ev["rate"], "p")
+    for o in m["odes"]:
+        used |= ir.atoms(o["expr"], "p")
+    in_mag = set()
+    for ev in m["events"]:
+        for tr in ev["trans"]:
+            in_mag |= ir.atoms(ir.mag_expr(tr["mag"]), "p")
+    in_der = set()
+    for d in m["derived"]:
+        in_der |= ir.atoms(d["expr"], "p")
+    taken = {d["name"] for d in m["derived"]}
+    return sorted(p for p in used if p not in in_der and p not in taken and p not in in_mag)
+
+
 def _draw_modification(data, w):
     """One structural modification, uniformly over the (mutator, input form) variants that apply."""
     m = w.m
@@ -337,7 +355,8 @@ def _draw_modification(data, w):
                 if not (v == "add_transition" and len(states) < 2)
                 and not (v.startswith("add_param") and len(m["params"]) >= 6)
                 and not (v == "add_derived" and (not m["params"] or len(m["derived"]) >= 3))
-                and not (v == "redefine_derived" and (not m["params"] or not _redefinable(m)))]
+                and not (v == "redefine_derived" and (not m["params"] or not _redefinable(m)))
+                and not (v == "shadow_param" and not _shadowable(m))]
     v = data.draw(st.sampled_from(variants))
     kind, _, sub = v.partition(":")
     if kind == "add_event":
@@ -363,15 +382,25 @@ def _draw_modification(data, w):
         if sub == "string":
             new = new[:1]          # the setter documents a list of names; a bare string is taken as ONE name
         return {"op": "add_param", "names": new, "via": sub}
+    if kind == "shadow_param":
+        # a derived parameter defined under the NAME OF AN EXISTING PARAMETER (the constant N becomes N = a function of other
+        # parameters): every rate that mentions the name now means the derived expression
+        name = data.draw(st.sampled_from(_shadowable(m)))
+        others = [q for q in m["params"] if q != name and q not in {d["name"] for d in m["derived"]}]
+        k = data.draw(S.coef(others))
+        e = ir.div(ir.mul(ir.C(data.draw(st.sampled_from([2, 3, 5]))), k), ir.add(ir.C(2), data.draw(S.coef(others))))
+        return {"op": "add_derived", "name": name, "expr": e, "via": "shadow"}
     if kind == "redefine_derived":
         # the same name defined again through the setter: the latest definition is the model's
         name = data.draw(st.sampled_from(_redefinable(m)))
-        k = data.draw(S.coef(m["params"]))
-        e = ir.div(ir.mul(ir.C(data.draw(st.sampled_from([2, 3, 5]))), k), ir.add(ir.C(2), data.draw(S.coef(m["params"]))))
+        plain = [q for q in m["params"] if q not in {d["name"] for d in m["derived"]}]     # never the shadowed names themselves
+        k = data.draw(S.coef(plain))
+        e = ir.div(ir.mul(ir.C(data.draw(st.sampled_from([2, 3, 5]))), k), ir.add(ir.C(2), data.draw(S.coef(plain))))
         return {"op": "redefine_derived", "name": name, "expr": e}
     name = [n for n in ["dd1", "dd2", "dd3", "dd4"] if n not in dn][0]
-    k = data.draw(S.coef(m["params"]))
-    e = ir.div(k, ir.add(ir.C(1), data.draw(S.coef(m["params"]))))
+    plain = [q for q in m["params"] if q not in set(dn)]
+    k = data.draw(S.coef(plain))
+    e = ir.div(k, ir.add(ir.C(1), data.draw(S.coef(plain))))
     if m["derived"] and data.draw(st.booleans()):
         e = ir.mul(e, ir.D(m["derived"][-1]["name"]))
     return {"op": "add_derived", "name": name, "expr": e}
